@@ -150,6 +150,9 @@ def c09(r):
     r.tlc_validate("SyncTrace", t, ["C09.", "C02.Halted", "C02.Converged", "C02.AppliedWhatArrived"])
     t = r.drive("syncer", ["-arg", "adversary"], name="syncer-adversary")
     r.tlc_validate("SyncTrace", t, ["C09.", "C02.Halted"])
+    # the process dies with fetched events held only in memory: the next process must examine those DA heights again
+    t = r.drive("syncer", ["-arg", "crash"], name="syncer-crashenum")
+    r.tlc_validate("SyncTrace", t, ["C09.", "C02.Halted", "C02.Converged", "C02.AppliedWhatArrived"])
     # stop requests while fetched events still wait in the hand-over channels, restarts after them
     t = r.drive("syncer", name="syncer-random")
     r.tlc_validate("SyncTrace", t, ["C09.", "C02.Halted", "C02.Converged", "C02.AppliedWhatArrived"])
@@ -160,6 +163,9 @@ def c10(r):
     ok, _ = r.tlc_exhaustive("BatchQueue.tla", "BatchQueue_hashkey.cfg", workers=8, expect_ok=False)
     if ok:
         raise Inconclusive("BatchQueue_hashkey.cfg should reproduce the (fixed) content-hash-key defect")
+    ok, _ = r.tlc_exhaustive("BatchQueue.tla", "BatchQueue_handoutonfail.cfg", workers=8, expect_ok=False)
+    if ok:
+        raise Inconclusive("BatchQueue_handoutonfail.cfg should reproduce the (fixed) hand-out-despite-refused-delete defect")
     t = r.drive("queue", name="queue")
     r.tlc_validate("QueueTrace", t, ["C10."])
     # step-level conformance: every record (database write, call return, restart, crash) is an action of BatchQueue.tla
